@@ -116,11 +116,10 @@ def WM.Wf (k : Backing) (w : WM) : Prop :=
 
 theorem U64s.codec_good : (arr u64).Good U64s := arr_good u64_good
 
-/-- `BV.codec_good` of `Sucds/Proofs/Serial.lean`, restated over `BV.Wf` -/
 theorem BV.codec_wf_good : BV.codec.Good BV.Wf := by
-  apply BV.codec_good.mono
-  intro b ⟨⟨h1, h2⟩, h3⟩
-  exact ⟨h1, fun w hw => h2 w (Array.mem_toList_iff.mp hw), h3⟩
+  apply iso_good (seq_good U64s.codec_good u64_good)
+  · intro x _; rfl
+  · intro x h; exact h
 
 theorem CV.codec_good : CV.codec.Good CV.Wf := by
   apply iso_good (seq_good BV.codec_wf_good (seq_good u64_good u64_good))
